@@ -74,6 +74,8 @@ def _world(loop, prepare):
     P = gatt.Characteristic.Properties
     w.ch = gatt.Characteristic('2A19', P.READ | P.WRITE | P.INDICATE | P.NOTIFY, gatt.Characteristic.READABLE | gatt.Characteristic.WRITEABLE, bytes([7]))
     devs[1].add_service(gatt.Service('180F', [w.ch]))
+    w.ch0 = gatt.Characteristic('2A19', P.READ | P.INDICATE | P.NOTIFY, gatt.Characteristic.READABLE, bytes([9]))
+    devs[0].add_service(gatt.Service('180F', [w.ch0]))
     for d in devs:
         loop.create_task(d.power_on())
     _settle(loop)
@@ -105,6 +107,40 @@ def _world(loop, prepare):
         t = loop.create_task(w.conn.pair())
         _settle(loop)
         assert t.done() and t.exception() is None
+    if prepare == 5:
+        # the CENTRAL is the GATT server here: the peripheral's client subscribes to its characteristic
+        w.peer1 = bdev.Peer(w.peer_conn)
+
+        async def sub():
+            await w.peer1.discover_services()
+            await w.peer1.discover_characteristics()
+            c = w.peer1.get_characteristics_by_uuid(gatt.GATT_BATTERY_LEVEL_CHARACTERISTIC)[0]
+            await c.subscribe(lambda v: None, prefer_notify=False)
+        t = loop.create_task(sub())
+        _settle(loop)
+        assert t.done() and t.exception() is None, t
+    if prepare == 6:
+        # passkey entry: the local user never types the passkey
+        from bumble.pairing import PairingConfig, PairingDelegate
+
+        class Keyboard(PairingDelegate):
+            def __init__(self):
+                super().__init__(PairingDelegate.KEYBOARD_INPUT_ONLY)
+                self.waiting = False
+
+            async def get_number(self):
+                self.waiting = True
+                try:
+                    await asyncio.get_running_loop().create_future()      # never answered
+                finally:
+                    self.waiting = False
+
+        class Display(PairingDelegate):
+            def __init__(self):
+                super().__init__(PairingDelegate.DISPLAY_OUTPUT_ONLY)
+        w.keyboard = Keyboard()
+        devs[0].pairing_config_factory = lambda c: PairingConfig(sc=True, mitm=True, bonding=True, delegate=w.keyboard)
+        devs[1].pairing_config_factory = lambda c: PairingConfig(sc=True, mitm=True, bonding=True, delegate=Display())
     return w
 
 
@@ -127,6 +163,9 @@ PROCS = {
     'pair': (0, 0, lambda w: [w.conn.pair()]),
     'peer_pair': (0, 1, lambda w: [w.peer_conn.pair()]),
     'paired_idle': (4, 0, lambda w: []),
+    'pair_passkey_prompt_open': (6, 0, lambda w: [w.conn.pair()]),
+    'central_is_server_idle': (5, 0, lambda w: []),
+    'central_is_server_indicate': (5, 0, lambda w: [w.devs[0].indicate_subscribers(w.ch0)]),
     'coc_connect': (0, 0, lambda w: [w.conn.create_l2cap_channel(l2cap.LeCreditBasedChannelSpec(psm=0x81))]),
     'coc_connect_refused': (0, 0, lambda w: [w.conn.create_l2cap_channel(l2cap.LeCreditBasedChannelSpec(psm=0x83))]),
     'coc_disconnect': (3, 0, lambda w: [w.channel.disconnect()]),
@@ -138,7 +177,7 @@ PROCS = {
 }
 # an upper bound of the undisturbed length of each procedure in loop callbacks (checked: a longer procedure is reported)
 KMAX = {'discover_all': 96, 'read': 14, 'write': 14, 'write_cmd_burst': 24, 'two_requests': 26, 'subscribe': 22, 'indicate': 16, 'notify': 8, 'mtu': 12, 'pair': 76,
-        'peer_pair': 76, 'paired_idle': 1, 'coc_connect': 12, 'coc_connect_refused': 12, 'coc_disconnect': 12, 'coc_write_drain': 130, 'rssi': 6, 'two_hci_commands': 10, 'conn_update': 6, 'encrypt_without_key': 4}
+        'peer_pair': 76, 'paired_idle': 1, 'pair_passkey_prompt_open': 40, 'central_is_server_idle': 1, 'central_is_server_indicate': 16, 'coc_connect': 12, 'coc_connect_refused': 12, 'coc_disconnect': 12, 'coc_write_drain': 130, 'rssi': 6, 'two_hci_commands': 10, 'conn_update': 6, 'encrypt_without_key': 4}
 CUTS = ['local-disconnect', 'peer-disconnect', 'link-loss', 'transport-lost']
 
 
@@ -209,6 +248,8 @@ def cut_run(proc, cutter, k):
         for i, t in enumerate(tasks):
             if not t.done():
                 bad.append(f'awaited call {i} never ends')
+        if getattr(w, 'keyboard', None) is not None and w.keyboard.waiting:
+            bad.append('the passkey prompt of the closed connection is still open')
         return bad + _leftovers(w, cutter)
 
 
@@ -240,7 +281,7 @@ def _canary_client_waiter_kept():
          grid={'proc': list(PROCS), 'cutter': [0, 1, 2, 3]},
          canaries=[('data-queue-never-flushed', _canary_queue_not_flushed), ('connecting-coc-not-aborted', _canary_coc_connecting_not_aborted),
                    ('smp-session-never-removed', _canary_session_kept)],
-         bounds='20 procedures (GATT discover/read/write/subscribe/indicate/notify/MTU, pairing from either side, LE CoC connect/refused/disconnect/drain, RSSI, parameter update, encrypt) x 4 cuts (local disconnect, peer disconnect, link loss, transport loss) x every callback boundary k of the procedure: all awaited calls end; connection tables of host, device and controller, GATT server registries, SMP sessions, L2CAP channel and request tables, ACL queue are empty')
+         bounds='23 procedures (incl. the central acting as GATT server, and a pairing whose passkey prompt stays open; GATT discover/read/write/subscribe/indicate/notify/MTU, pairing from either side, LE CoC connect/refused/disconnect/drain, RSSI, parameter update, encrypt) x 4 cuts (local disconnect, peer disconnect, link loss, transport loss) x every callback boundary k of the procedure: all awaited calls end; connection tables of host, device and controller, GATT server registries, SMP sessions, L2CAP channel and request tables, ACL queue are empty')
 def system_cut(k: int, proc: str, cutter: int) -> bool:
     k = C(k, 0, 130)
     if k > KMAX[proc]:
@@ -470,3 +511,29 @@ def channel_level_waiters(i: int) -> bool:
     i = C(i, 0, 2)
     with untraced():
         return not _channel_waiters(WAITER_KINDS[i])
+
+
+@harness(pre=['1 <= mask <= 7'], family='l2cap-cut', twin=True, kernels=('bumble.host.Host.on_transport_lost', 'bumble.host.Host.on_hci_disconnection_complete_event'), timeout=(60, 200),
+         bounds='a Host holding any non-empty subset of {an ACL connection, a CIS link, a SCO link} (symbolic) loses its transport: every one of them is reported disconnected exactly once to the host\'s listeners, all three link tables end empty, and a flush is announced')
+def host_transport_lost_closes_every_kind_of_link(mask: int) -> bool:
+    mask = C(mask, 1, 7)
+    with detloop.running() as loop:
+        with untraced():
+            h = bhost.Host()
+            h.ready = True
+            want = []
+            if mask & 1:
+                h.connections[0x0001] = object()
+                want.append(0x0001)
+            if mask & 2:
+                h.cis_links[0x0010] = object()
+                want.append(0x0010)
+            if mask & 4:
+                h.sco_links[0x0020] = object()
+                want.append(0x0020)
+            seen, flushed = [], []
+            h.on('disconnection', lambda handle, reason: seen.append(handle))
+            h.on('flush', lambda: flushed.append(1))
+            h.on_transport_lost()
+            loop.run_ready()
+            return sorted(seen) == sorted(want) and not h.connections and not h.cis_links and not h.sco_links and flushed == [1]
